@@ -13,6 +13,7 @@ spelling, whitespace and syntax variant that lexes to those kinds.
                 only unparenthesised products are flattened.
  r5 ACTION-ARGS every `A op B` production builds its node with ($1,$2,$3) in that order (sibling rule over the 15 binary
                 productions).
+ r6 UNITS       the MATH lexer derives token ranges and its line base only from code-point columns.
 Not decided: that RE/flex counts columns in code points; the lexers' ranges (C04/C05 use the DFA models).
 """
 import json
@@ -27,7 +28,7 @@ from engine.models.lr import LR
 from engine.models.act import AstModel
 from engine.models.corpus import corpus, sentence, SET_BIN, LOGIC_BIN
 
-UNITS = ['RSlang']
+UNITS = ['RSlang', 'RSlang2']
 VERIF = os.path.dirname(os.path.dirname(os.path.abspath(__file__)))
 
 # TokenID enumerator <-> bison token name where they are spelled differently (read once from RSToken.h / RSParserImpl.y)
@@ -118,6 +119,24 @@ def check(db, rep):
         else:
             r2.violation(inst, 'ccl/rslang/src/RSParserImpl.y', '`%s` builds %s, the grammar of the language gives %s' % (s, got if t else 'no tree (%s)' % (info,), want_n))
 
+    # parenthesis-depth invariance: wrapping an already parenthesised binary group once or twice more never changes the tree
+    base_sentences = ['( G1 DECART G2 ) DECART G3', 'G1 DECART ( G2 DECART G3 )', '( G1 UNION G2 ) INTERSECTION G3', 'G1 SET_MINUS ( G2 SET_MINUS G3 )',
+                      '( I1 PLUS I2 ) MULTIPLY I1', '( G1 DECART G2 ) DECART ( G2 DECART G3 )', '( G1 DECART G2 ) UNION G3', '{ ( G1 DECART G2 ) DECART G3 , G1 }']
+    for s0 in base_sentences:
+        t0, info0 = model.build(sentence(s0))
+        for depth in (2, 3):
+            s1 = _deepen(s0, depth)
+            t1, info1 = model.build(sentence(s1))
+            inst = 'paren-depth-%d:%s' % (depth, s0)
+            if t0 is None:
+                r2.broken('sentence `%s` rejected' % s0)
+            elif t1 is None:
+                r2.violation(inst, 'ccl/rslang/src/RSParser.cpp', '`%s` is rejected although `%s` is accepted (%s)' % (s1, s0, info1))
+            elif _shape_ids(t0) != _shape_ids(t1):
+                r2.violation(inst, 'ccl/rslang/src/RSParser.cpp', 'redundant parentheses change the tree: `%s` builds %s but `%s` builds %s' % (s0, _shape_ids(t0), s1, _shape_ids(t1)))
+            else:
+                r2.ok(inst, s1)
+
     # ---------------------------------------------------------------- r3 / r4
     r3 = rep.rule('r3', 'RANGE: at every reduction whose action assigns $$ the node range equals [start of first token, finish of last token] of the yield; every production is exercised', 40)
     r4 = rep.rule('r4', 'NESTING: child ranges lie inside parent ranges; every sentence of the corpus is accepted and yields one tree', 60)
@@ -174,6 +193,33 @@ def check(db, rep):
     rep.note('productions_exercised', len(covered))
     rep.note('error_productions', sorted(errs))
 
+    # ---------------------------------------------------------------- r6
+    r6 = rep.rule('r6', 'UNITS: the MATH lexer computes token ranges and the line base only from code-point columns (columno/columns), never from byte offsets', 2)
+    ML = 'ccl::rslang::detail::rslex::MathLexerImpl'
+    BYTE_API = {'first', 'last', 'size', 'pos', 'border'}
+    CP_API = {'columno', 'columns', 'columno_end'}
+    rg = db.fn(ML + '::Range', required=False)
+    if rg is None:
+        r6.broken('MathLexerImpl::Range not found')
+    else:
+        used = {(n.get('cs') or '').split('::')[-1] for n in rg.calls()}
+        reads_base = any(x['k'] == 'MemberExpr' and x.get('member') == 'lineBase' for x in rg.walk())
+        if used & BYTE_API or not (used & CP_API) or not reads_base:
+            r6.violation('MathLexerImpl::Range', '%s:%d' % (rg.file, rg.line), 'token range is computed from %s (byte offsets) instead of lineBase + columno()/columns(): ranges are wrong after any multi-byte symbol' % sorted(used & BYTE_API or used))
+        else:
+            r6.ok('MathLexerImpl::Range', 'lineBase + columno() .. + columns()', '%s:%d' % (rg.file, rg.line))
+    lx = db.fn(ML + '::lex', pick=lambda x: not x.rec['params'])
+    writes = [n for n in lx.walk() if n['k'] in ('CompoundAssignOperator', 'BinaryOperator') and (n.get('op') in ('+=', '=')) and lx.strip(lx.children(n)[0]).get('member') == 'lineBase']
+    if len(writes) != 1:
+        r6.violation('newline-rule', '%s:%d' % (lx.file, lx.line), 'the line base is updated at %d places in the scanner actions (expected exactly the newline rule)' % len(writes))
+    else:
+        w = writes[0]
+        used = {(n.get('cs') or '').split('::')[-1] for n in lx.calls(w)}
+        if w.get('op') != '+=' or used & BYTE_API or 'columno' not in used:
+            r6.violation('newline-rule', lx.loc(w), 'the newline rule sets the line base with `%s`: it must add the code-point column of the line break (lineBase += columno() + 1), a byte offset shifts every later position by the extra UTF-8 bytes' % w.get('txt', '')[:60])
+        else:
+            r6.ok('newline-rule', 'lineBase += columno() + 1', lx.loc(w))
+
     # ---------------------------------------------------------------- r5
     r5 = rep.rule('r5', 'ACTION-ARGS: each binary production passes ($1,$2,$3) to its node constructor in that order', 15)
     f = lr.actions_fn
@@ -195,6 +241,46 @@ def check(db, rep):
                     else:
                         r5.violation(inst, f.loc(c), 'operands passed as %s (stack offsets), expected ($1,$2,$3) = offsets [2,1,0]: operands swapped or duplicated' % idx)
     rep.note('binary_productions', n_bin)
+
+
+def _deepen(s, depth):
+    """wrap every parenthesised group whose content has an infix operator at its top level `depth` times instead of once"""
+    toks = s.split()
+    out = []
+    stack = []
+    infix = set(SET_BIN)    # only set-expression groups may be parenthesised repeatedly (logic_par takes exactly one pair)
+    # find matching groups
+    match = {}
+    for i, t in enumerate(toks):
+        if t == '(':
+            stack.append(i)
+        elif t == ')':
+            match[stack.pop()] = i
+    wrap = set()
+    for a, b in match.items():
+        lvl = 0
+        has = False
+        comma = False
+        for t in toks[a + 1:b]:
+            if t == '(':
+                lvl += 1
+            elif t == ')':
+                lvl -= 1
+            elif lvl == 0 and t in infix:
+                has = True
+            elif lvl == 0 and t == ',':
+                comma = True
+        prev = toks[a - 1] if a > 0 else ''
+        functional = prev in ('BOOLEAN', 'CARD', 'BOOL', 'DEBOOL', 'REDUCE', 'Pr1', 'Pr12', 'pr2', 'pr13') or prev == ']'
+        if has and not comma and not functional:
+            wrap.add(a)
+            wrap.add(b)
+    for i, t in enumerate(toks):
+        if i in wrap:
+            out += [t] * depth
+        else:
+            out.append(t)
+    return ' '.join(out)
 
 
 def _shape_ids(t):
